@@ -147,6 +147,12 @@ impl Tokenizer {
         self.allow_cdata = allow_cdata;
     }
 
+    /// Name of the raw text element (script, style, title, ...) whose content will be read by the
+    /// next call to `next()`, empty when the tokenizer is not in raw text mode
+    pub fn raw_tag(&self) -> &str {
+        self.raw_tag.as_str()
+    }
+
     #[allow(clippy::should_implement_trait)]
     pub fn next(&mut self) -> Result<TokenType> {
         self.raw.start = self.raw.end;
